@@ -219,7 +219,7 @@ func colProvenanceOK(table, col, p string) bool {
 		if strings.HasPrefix(table, "deleted_") {
 			return strings.Contains(p, "Sum32")
 		}
-		return p == "p:eventKey"
+		return p == "p:eventKey" || (strings.HasPrefix(p, "call:") && strings.Contains(p, ".getEventKey("))
 	case "id":
 		if table == "deleted_event_ids" {
 			return strings.Contains(p, "encoding/hex.DecodeString(p:event.Tags[*][1])")
